@@ -66,6 +66,9 @@ class Frame:
         self.body, self.it, self.ret, self.depth, self.wrap = body, it, ret, depth, wrap
 
 
+WRITE_KINDS = ("u8", "u16be", "u16le", "u24be", "u24le", "u32be", "u32le", "u64be", "u64le", "f64be", "f64le", "f32be", "i16be", "i32be", "i64be")
+
+
 class Extractor:
     """mode 'w': tokens are writes to the sink; mode 'r': tokens are reads from the source.
     sink_pred(it, S, recv_sv, recv_type) decides whether a receiver is the tracked byte stream.
@@ -380,6 +383,12 @@ class Extractor:
                                 if pr == (("len",),):
                                     fin.append((fld + ".len", render_value(self.prog, lv, names=nm)))
                 toks = toks + [("final", tuple(sorted(fin)))]
+            if self.mode == "w" and not any(t[0] in WRITE_KINDS or t[0] in ("bytes", "unmodelled") for t in toks):
+                rc = self.returned_content(S)
+                if rc:
+                    # placed before the return token, where a sink-based encoder has its writes
+                    at = max((i for i, t in enumerate(toks) if t[0] == "returns"), default=len(toks))
+                    toks = toks[:at] + list(rc) + toks[at:]
             toks = self._probe_tokens(toks, S)
             self.paths.append(tuple(toks + [("end", res)]))
             del self.order[mark:]
@@ -590,6 +599,20 @@ class Extractor:
                         toks.append(("call", cb.pretty, tuple(self.render_arg(S, x) for x in args)) + ((tuple(args),) if self.raw_args else ()))
         return toks
 
+    def returned_content(self, S):
+        """a function that builds its output as a value (no sink): the typed content of the byte container it returns"""
+        v = S.read((self.it.L(0), ()))
+        for _ in range(6):
+            while isinstance(v, tuple) and v[0] == "upd":
+                v = v[1]
+            if isinstance(v, tuple) and v[0] == "agg" and v[1] == "core::result::Result" and v[2] == 0 and len(v[3]) == 1:
+                v = v[3][0]
+            elif isinstance(v, tuple) and v[0] == "model" and v[1] in ("into_bytes", "to_vec"):
+                v = v[2]
+            else:
+                break
+        return self.typed_value(S, v)
+
     def typed_bytes(self, S, src, ty):
         """tokens for appending a byte array that is the big/little-endian image of a number, or an array of known elements"""
         it = self.it
@@ -597,6 +620,9 @@ class Extractor:
             v = it.deref_value(S, src, 2, ty)
         except Exception:
             return None
+        return self.typed_value(S, v)
+
+    def typed_value(self, S, v):
         for _ in range(4):
             while isinstance(v, tuple) and v[0] == "upd":
                 v = v[1]
